@@ -13,8 +13,8 @@ SeqToSet(s) == {s[i] : i \in DOMAIN s}
 Failed(gs)  == {g[1] : g \in {x \in gs : ~x[2]}}
 MaxOf(a, b) == IF a >= b THEN a ELSE b
 
-CredActs == {"VipOTP", "PushStart", "PushPoll", "Totp", "U2FBegin", "U2FFinish", "BotpUse", "CliShow", "CliSend"}
-FactorOfAct == [VipOTP |-> "vip", PushPoll |-> "vip", Totp |-> "totp", U2FFinish |-> "u2f", BotpUse |-> "botp"]
+CredActs == {"VipOTP", "PushStart", "PushPoll", "Totp", "U2FBegin", "U2FFinish", "BotpUse", "CliShow", "CliSend", "OktaStart", "OktaPoll", "OktaOTP"}
+FactorOfAct == [VipOTP |-> "vip", PushPoll |-> "vip", Totp |-> "totp", U2FFinish |-> "u2f", BotpUse |-> "botp", OktaPoll |-> "okta", OktaOTP |-> "okta"]
 UpgradeActs == DOMAIN FactorOfAct
 
 CredOf(e) == [cert |-> e.args.cred.cert, slot |-> e.args.cred.slot]
@@ -37,6 +37,8 @@ GuardsOf(e) ==
                                 <<"G_C05_CodeFresh", G_C05_CodeFresh(e.args.owner, now + e.args.step)>>}
       [] e.ev = "U2FFinish" -> {<<"G_C05_CookieIsActor", G_C05_CookieIsActor(c)>>, <<"G_C05_ChalPresent", G_C05_ChalPresent(c)>>,
                                 <<"G_C05_TokenOwner", G_C05_TokenOwner(c, e.args.owner)>>, <<"G_C05_ChalNotExpired", G_C05_ChalNotExpired(c)>>}
+      [] e.ev = "OktaPoll"  -> {<<"G_C05_CookieIsActor", G_C05_CookieIsActor(c)>>, <<"G_C05_OktaApproved", G_C05_OktaApproved(c)>>}
+      [] e.ev = "OktaOTP"   -> {<<"G_C05_CookieIsActor", G_C05_CookieIsActor(c)>>, <<"G_C05_CodeOwner", G_C05_CodeOwner(c, e.args.owner)>>}
       [] e.ev = "BotpUse"   -> {<<"G_C05_CookieIsActor", G_C05_CookieIsActor(c)>>, <<"G_C05_BotpOwner", G_C05_BotpOwner(c, e.args.owner)>>,
                                 <<"G_C05_BotpSet", G_C05_BotpSet(c)>>, <<"G_C05_BotpNotExpired", G_C05_BotpNotExpired(c)>>}
 
@@ -44,6 +46,8 @@ GuardsOf(e) ==
 AfterGuards(e) ==
     LET c == CredOf(e) IN
     CASE e.ev = "U2FFinish" -> {<<"G_C05_ChalConsumed", Actor(c) = None \/ ~e.post.chal[Actor(c)]>>}
+      [] e.ev = "OktaPoll"  -> {<<"G_C05_CookieIsActor", G_C05_CookieIsActor(c)>>, <<"G_C05_OktaApproved", G_C05_OktaApproved(c)>>}
+      [] e.ev = "OktaOTP"   -> {<<"G_C05_CookieIsActor", G_C05_CookieIsActor(c)>>, <<"G_C05_CodeOwner", G_C05_CodeOwner(c, e.args.owner)>>}
       [] e.ev = "BotpUse"   -> {<<"G_C05_BotpConsumed", Actor(c) = None \/ ~e.post.botp[Actor(c)]>>}
       [] OTHER -> {}
 
@@ -100,12 +104,12 @@ Apply(e) ==
                    THEN [totpLast EXCEPT ![e.args.owner] = MaxOf(@, now + e.args.step)] ELSE totpLast
     /\ now' = IF e.ev = "Tick" THEN now + 1 ELSE now
     /\ cliTok' = IF e.ev = "CliShow" /\ Ok2xx(e) /\ e.out.identity \in Users /\ WebActor(CredOf(e)) = e.out.identity THEN cliTok \cup {e.out.identity} ELSE cliTok
-    /\ oktaTx' = oktaTx
+    /\ oktaTx' = IF "oktaTx" \in DOMAIN e.post THEN [u \in Users |-> e.post.oktaTx[u]] ELSE oktaTx
     /\ proven' = Truth(e)
     /\ act' = Req(e.ev, e.args)
 
 Reset(e) ==
-    /\ cookie' = [s \in Slots |-> NoCookie] /\ pushTx' = [v \in VCookies |-> NoTx] /\ oktaTx' = [u \in Users |-> "none"]
+    /\ cookie' = [s \in Slots |-> NoCookie] /\ pushTx' = [v \in VCookies |-> NoTx] /\ oktaTx' = [u \in Users |-> "nosess"]
     /\ chal' = [u \in Users |-> NoChal] /\ totpLast' = [u \in Users |-> 0 - 1] /\ now' = 0
     /\ botp' = [u \in Users |-> NoBotp] /\ cliTok' = {} /\ proven' = {} /\ act' = Req("Init", [x |-> 0])
 
